@@ -20,9 +20,24 @@ pub trait Prim: Serialize + DeserializeOwned + Copy + Stimulus + Send + Sync + '
     fn tok(self) -> Tok;
     /// full opacity, stated independently of `Stimulus::max_intensity`
     fn opaque() -> Self;
+    /// the documented optional-alpha helper at this concrete alpha type (called per concrete type so
+    /// that the harness type-checks whatever trait bound the helper puts on its alpha parameter)
+    fn opt_alpha<'de, C: serde::Deserialize<'de>, D: serde::Deserializer<'de>>(d: D) -> Result<Alpha<C, Self>, D::Error>;
+    fn opt_pre<'de, C: Premultiply<Scalar = Self> + serde::Deserialize<'de>, D: serde::Deserializer<'de>>(d: D) -> Result<PreAlpha<C>, D::Error>;
+}
+macro_rules! opt_alpha_body {
+    () => {
+        fn opt_alpha<'de, C: serde::Deserialize<'de>, D: serde::Deserializer<'de>>(d: D) -> Result<Alpha<C, Self>, D::Error> {
+            palette::serde::deserialize_with_optional_alpha(d)
+        }
+        fn opt_pre<'de, C: Premultiply<Scalar = Self> + serde::Deserialize<'de>, D: serde::Deserializer<'de>>(d: D) -> Result<PreAlpha<C>, D::Error> {
+            palette::serde::deserialize_with_optional_pre_alpha(d)
+        }
+    };
 }
 
 impl Prim for f32 {
+    opt_alpha_body!();
     const NAME: &'static str = "f32";
     fn lat(i: usize) -> f32 {
         [
@@ -41,6 +56,7 @@ impl Prim for f32 {
     }
 }
 impl Prim for f64 {
+    opt_alpha_body!();
     const NAME: &'static str = "f64";
     fn lat(i: usize) -> f64 {
         [
@@ -59,6 +75,7 @@ impl Prim for f64 {
     }
 }
 impl Prim for u8 {
+    opt_alpha_body!();
     const NAME: &'static str = "u8";
     fn lat(i: usize) -> u8 {
         [0, 255, 1, 2, 3, 4, 128, 127, 254, 10, 20, 30, 40, 50, 60, 70, 80, 90, 100, 200, 250][i]
@@ -74,6 +91,7 @@ impl Prim for u8 {
     }
 }
 impl Prim for u16 {
+    opt_alpha_body!();
     const NAME: &'static str = "u16";
     fn lat(i: usize) -> u16 {
         [0, 65535, 1, 2, 3, 4, 32768, 32767, 65534, 255, 256, 257, 1000, 10000, 12345, 54321, 0x0102, 0x0201, 0xff00, 0x00ff, 0x8001][i]
@@ -358,18 +376,18 @@ pub trait AlphaLike: Case {
 }
 
 pub struct OptA<C, A>(pub Alpha<C, A>);
-impl<'de, C: serde::Deserialize<'de>, A: Stimulus + serde::Deserialize<'de>> serde::Deserialize<'de> for OptA<C, A> {
+impl<'de, C: serde::Deserialize<'de>, A: Prim> serde::Deserialize<'de> for OptA<C, A> {
     fn deserialize<D: serde::Deserializer<'de>>(d: D) -> Result<Self, D::Error> {
-        palette::serde::deserialize_with_optional_alpha(d).map(OptA)
+        A::opt_alpha(d).map(OptA)
     }
 }
 pub struct OptP<C: Premultiply>(pub PreAlpha<C>);
 impl<'de, C: Premultiply + serde::Deserialize<'de>> serde::Deserialize<'de> for OptP<C>
 where
-    C::Scalar: Stimulus + serde::Deserialize<'de>,
+    C::Scalar: Prim,
 {
     fn deserialize<D: serde::Deserializer<'de>>(d: D) -> Result<Self, D::Error> {
-        palette::serde::deserialize_with_optional_pre_alpha(d).map(OptP)
+        <C::Scalar as Prim>::opt_pre(d).map(OptP)
     }
 }
 
